@@ -56,7 +56,10 @@ CLAIMS = {
         "strict recover on each and compares with the model's recovery of the corresponding action prefix; oracle = acked / "
         "acked+in-flight. POWER LOSS (fsync-every-write): at the same instants, in a third of the histories, every directory a power "
         "failure may leave (per file the bytes of its last fsync or all, every prefix of the un-synced directory changes; ~5.5k "
-        "directories per quick run) is recovered by the real code under the same oracle. PERIODIC clause: the calls the server's "
+        "directories per quick run) is recovered by the real code under the same oracle, and theorem C01_power_loss_point lifts "
+        "C01_kill_point to every directory that differs from a kill-point directory only in files the MANIFEST does not reference "
+        "(hypothesis SameReferenced; checked on the run: the referenced view of every real power-loss directory is the view of a "
+        "model action prefix). PERIODIC clause: the calls the server's "
         "periodic task makes are extracted from kyrodb_server.rs on every run (translators/xlate_timer.py) and replayed under a "
         "virtual clock on an engine with FsyncPolicy::Periodic; every power-loss directory must contain every operation acknowledged "
         "more than one interval earlier; the same op lines run through the protocol model Persist/Periodic.lean (theorems "
@@ -65,8 +68,9 @@ CLAIMS = {
         "outcome, the model's synced-only outcome among the real ones. Three genuine defects found and repaired (fixes 89a0367, "
         "be0c955, c353f41).",
    note="Proved for the process-kill model at logical-action granularity; torn-frame invisibility and atomic publication are "
-        "byte/OS-level facts validated by the enumeration. Power loss under fsync-every-write is decided by enumeration over generated "
-        "histories, not by a theorem (whole-file granularity for un-synced bytes); the periodic protocol model covers rotation off / "
+        "byte/OS-level facts validated by the enumeration. Power loss under fsync-every-write: a theorem under the hypothesis that a "
+        "power failure only affects unreferenced files beyond a kill point; that hypothesis is validated by enumeration over generated "
+        "histories with the harness's model of un-synced bytes and directory entries (whole-file granularity for un-synced bytes); the periodic protocol model covers rotation off / "
         "after every write and restarts, not byte-threshold rotation or snapshots (oracle only there). Trusted: Lean kernel, hand model "
         "validated by correspondence, FS shim, timer translator (fails closed on an unknown engine call).",
    design="§3 C01"),
